@@ -36,6 +36,10 @@ DIRS = {
     "fwd": helpers.DIR_SENS_FORWARD,
     "any": helpers.DIR_SENS_ANY,
     "back": helpers.DIR_SENS_BACKWARD,
+    # the direction given as a plain bool (True == 1, False == 0), as the
+    # sibling find_links() takes it
+    "T": True,
+    "F": False,
 }
 UNKS = {
     "non": helpers.LNK_UNKNOWN_NONNEIGHBOR,
@@ -162,6 +166,8 @@ class Exec:
         if cls is C.SlottedVertex:
             v.name = op["new"]
             v.rank = op.get("tag", 0)
+        if op.get("heir") is not None:
+            v.heir = self.g(op["heir"])
         self.w.add(op["new"], v)
         return v
 
